@@ -211,6 +211,24 @@ func corpus(r *rand.Rand) map[string][][]byte {
 		tg := &treeGen{r: r, finite: true, simple: true, big: true}
 		add(buildTree(tg.tree(0, ctypes[i%4], typeNames[1+i%6])))
 	}
+	for _, m := range []int{17, 33, 70} { // ... and every kind of count above 16, 32 and 64, whatever the generator drew
+		var pts, lines, holes, members []string
+		for k := 0; k < m; k++ {
+			pts = append(pts, fmt.Sprintf("%d %d", k, (k*k)%7))
+			lines = append(lines, fmt.Sprintf("(%d 0,%d 1)", k, k))
+			holes = append(holes, fmt.Sprintf("(%d 1,%d 1,%d 2,%d 1)", 3*k+1, 3*k+2, 3*k+1, 3*k+1))
+			members = append(members, fmt.Sprintf("POINT(%d %d)", k, k%3))
+		}
+		for _, w := range []string{
+			"MULTIPOINT(" + strings.Join(pts, ",") + ")",
+			"LINESTRING(" + strings.Join(pts, ",") + ")",
+			"MULTILINESTRING(" + strings.Join(lines, ",") + ")",
+			fmt.Sprintf("POLYGON((0 0,%d 0,%d 3,0 3,0 0),", 3*m+1, 3*m+1) + strings.Join(holes, ",") + ")",
+			"GEOMETRYCOLLECTION(" + strings.Join(members, ",") + ")",
+		} {
+			add(mustWKT(w))
+		}
+	}
 	mp := geom.NewMultiPoint([]geom.Point{geom.XY{X: 1, Y: 2}.AsPoint(), geom.XY{X: 3, Y: 4}.AsPoint()}).AsGeometry()
 	// TWKB with the optional headers (id list, size, bounding box) on collection types: first in the corpus, so that the
 	// structured sweeps (every truncation, every count / varint overwrite at every position) always include them
